@@ -138,7 +138,9 @@ def build_world(patched=True):
 
     def M_apply(self, speed):
         m_apply(self, speed)
-        eng().emit("motor", tuple(pin_number(p) for p in self.pins), "drive", self._applied_speed)
+        # the mode the real class decided on this path ("coast" when the effective speed is +-0.0, else "drive")
+        mode = self._mode if self._mode in ("drive", "coast") else "drive"
+        eng().emit("motor", tuple(pin_number(p) for p in self.pins), mode, self._applied_speed if mode == "drive" else 0.0)
 
     def M_stop(self):
         m_stop(self)
